@@ -28,6 +28,17 @@
 //! with round-to-nearest-even (Rounding.v / Engine.v) and with Rust's correctly rounded parser, and
 //!   (x)   no number of the target format lies between the exact value and its image (the promotion never crosses a float),
 //!         which is what makes the exact order of ORDER BY and the promoted order of '<' compatible.
+//! Directed stream (ids from DIRECTED_BASE, one case for every six random ones; same oracles and Coq checkers as the q:* / c:* kinds):
+//!   q:unprojected  criteria over variables that the SELECT clause does not project and that are sensitive to WHETHER the last operand
+//!                  is bound (BOUND, '!', IF, COALESCE, EXISTS, IN, functions over a variable bound in about half of the solutions);
+//!   q:near-ties    values that '<' orders although they are as close as their value space allows (dateTimes 1 ns .. 1 s apart written
+//!                  in several time zones, neighbouring doubles / floats, decimals that differ after 17..30 fraction digits, consecutive
+//!                  integers across the ends of the isize range, strings with a common prefix), shuffled, with a second key that orders
+//!                  the solutions the other way round: two values wrongly tied on the first key come out in the wrong order;
+//!   c:*+part-proj  context cases whose SELECT clauses (the outermost one included) keep only part of the variables, with keys that
+//!                  depend on whether a variable is bound (Coq: Context.v evaluates Project above OrderBy; Directed.v / DirectedProofs.v);
+//!   every end-to-end case of the stream has a SELECT clause that projects ?s, some of the operands or *, and
+//!   (i')  the columns are those of the SELECT clause and the projected operands of every ordered solution are those of that solution.
 //! The model receives, for every pool term, the value that the implementation itself parsed
 //! (Debug rendering of ResultTerm::value()), so that lexical parsing is not part of the model.
 use sophia_api::prelude::*;
@@ -527,6 +538,8 @@ struct QCase {
     distinct: bool,
     arith: Option<&'static str>, // key 0 is exactly (?a OP ?b) / (- ?a): compared with the model's integer arithmetic
     label: String,
+    projv: Vec<usize>,         // the operands that the SELECT clause projects next to ?s (the others are only seen by the criteria)
+    star: bool,                // SELECT * (no key of form 2 then)
 }
 #[derive(Clone, Debug)]
 struct KeyObs { term: Option<ST>, dbg: String }
@@ -575,7 +588,9 @@ fn rename_vars(e: &str, sfx: &str) -> String {
     out
 }
 type QRows = Vec<Vec<Option<(ST, String)>>>; // per result row and column: the term and the Debug rendering of its cached value
-fn exec_on<D: Dataset>(d: &D, entry: u8, q: &str) -> Result<QRows, String> where D::Error: std::fmt::Debug {
+fn exec_on<D: Dataset>(d: &D, entry: u8, q: &str) -> Result<QRows, String> where D::Error: std::fmt::Debug { exec_on_vars(d, entry, q).map(|x| x.1) }
+/// the same with the names of the columns (Bindings::variables)
+fn exec_on_vars<D: Dataset>(d: &D, entry: u8, q: &str) -> Result<(Vec<String>, QRows), String> where D::Error: std::fmt::Debug {
     let w = SparqlWrapper(d);
     let res = match entry {
         0 => { let pq = SparqlQuery::parse(q).map_err(|e| format!("parse error {e:?} in {q}"))?; w.query(&pq) }
@@ -583,12 +598,13 @@ fn exec_on<D: Dataset>(d: &D, entry: u8, q: &str) -> Result<QRows, String> where
         _ => w.query(q),
     };
     let b = res.map_err(|e| format!("query error {e:?} in {q}"))?.into_bindings();
+    let vars: Vec<String> = b.variables().iter().map(|v| v.to_string()).collect();
     let mut out = vec![];
     for row in b {
         let row = row.map_err(|e| format!("row error {e:?} in {q}"))?;
         out.push(row.iter().map(|t| t.as_ref().map(|t| (to_st(t.inner()), format!("{:?}", t.value())))).collect());
     }
-    Ok(out)
+    Ok((vars, out))
 }
 impl QCase {
     fn n(&self) -> usize { self.ops.len() }
@@ -623,8 +639,10 @@ impl QCase {
     }
     /// the query under test; `windowed`: with its LIMIT / OFFSET; `distinct`: SELECT DISTINCT of the keys only
     fn sorted_query(&self, windowed: bool, distinct: bool) -> String {
-        let mut q = String::from(if distinct { "SELECT DISTINCT" } else { "SELECT ?s" });
-        for (i, k) in self.keys.iter().enumerate() { match k.form { 2 => q.push_str(&format!(" ({} AS ?k{i})", k.expr)), 1 => q.push_str(&format!(" ?k{i}")), _ => {} } }
+        let star = self.star && !distinct;
+        let mut q = String::from(if distinct { "SELECT DISTINCT" } else if star { "SELECT *" } else { "SELECT ?s" });
+        if !distinct && !star { for k in &self.projv { q.push_str(&format!(" ?{}", OPV[*k])); } }
+        if !star { for (i, k) in self.keys.iter().enumerate() { match k.form { 2 => q.push_str(&format!(" ({} AS ?k{i})", k.expr)), 1 => q.push_str(&format!(" ?k{i}")), _ => {} } } }
         q.push_str(&format!(" {{{}", self.body()));
         for (i, k) in self.keys.iter().enumerate() { if k.form == 1 { q.push_str(&format!(" BIND({} AS ?k{i})", k.expr)); } }
         q.push_str(&self.filter_txt()); q.push_str(" } ORDER BY");
@@ -641,13 +659,14 @@ impl QCase {
         if let Some(k) = filter_key { q.push_str(&format!(" FILTER(?k{k}_1 < ?k{k}_2)")); }
         q.push_str(" }"); q
     }
-    fn exec(&self, q: &str) -> Result<QRows, String> {
+    fn exec(&self, q: &str) -> Result<QRows, String> { self.exec_vars(q).map(|x| x.1) }
+    fn exec_vars(&self, q: &str) -> Result<(Vec<String>, QRows), String> {
         let quads = self.quads(); let (store, entry) = (self.store, self.entry);
-        let res = std::panic::catch_unwind(std::panic::AssertUnwindSafe(|| -> Result<QRows, String> {
+        let res = std::panic::catch_unwind(std::panic::AssertUnwindSafe(|| -> Result<(Vec<String>, QRows), String> {
             match store {
-                0 => exec_on(&quads, entry, q),
-                1 => { let mut d = sophia_inmem::dataset::LightDataset::new(); for (spo, g) in &quads { d.insert(&spo[0], &spo[1], &spo[2], g.as_ref()).map_err(|e| format!("insert: {e:?}"))?; } exec_on(&d, entry, q) }
-                _ => { let mut d = sophia_inmem::dataset::FastDataset::new(); for (spo, g) in &quads { d.insert(&spo[0], &spo[1], &spo[2], g.as_ref()).map_err(|e| format!("insert: {e:?}"))?; } exec_on(&d, entry, q) }
+                0 => exec_on_vars(&quads, entry, q),
+                1 => { let mut d = sophia_inmem::dataset::LightDataset::new(); for (spo, g) in &quads { d.insert(&spo[0], &spo[1], &spo[2], g.as_ref()).map_err(|e| format!("insert: {e:?}"))?; } exec_on_vars(&d, entry, q) }
+                _ => { let mut d = sophia_inmem::dataset::FastDataset::new(); for (spo, g) in &quads { d.insert(&spo[0], &spo[1], &spo[2], g.as_ref()).map_err(|e| format!("insert: {e:?}"))?; } exec_on_vars(&d, entry, q) }
             }
         }));
         match res { Ok(r) => r, Err(_) => Err(format!("PANIC while evaluating {q}")) }
@@ -743,10 +762,29 @@ fn run_qcase(c: &QCase, verbose: bool) -> QOut {
     }
     // ---- the sorted query (without its window)
     let sq = c.sorted_query(false, false);
-    let srows = match c.exec(&sq) { Ok(r) => r, Err(e) => return fail(e, bumps) };
+    let (svars, srows) = match c.exec_vars(&sq) { Ok(r) => r, Err(e) => return fail(e, bumps) };
+    let col = |name: &str| svars.iter().position(|v| v == name);
+    let Some(scol) = col("s") else { return fail(format!("(i) the result of {sq} has no column ?s (columns {svars:?})"), bumps) };
+    if srows.iter().any(|r| r.len() != svars.len()) { return fail(format!("(i) a row of the result of {sq} has not the {} columns {svars:?}", svars.len()), bumps); }
     let mut out: Vec<usize> = vec![];
-    for r in &srows { match sid(&r[0]) { Ok(s) if s < c.n() => out.push(s), _ => return fail(format!("(i) unexpected solution {:?} in the result of {sq}", r[0]), bumps) } }
+    for r in &srows { match sid(&r[scol]) { Ok(s) if s < c.n() => out.push(s), _ => return fail(format!("(i) unexpected solution {:?} in the result of {sq}", r[scol]), bumps) } }
     let mut failure: Option<String> = None;
+    // the columns are those of the SELECT clause, in its order
+    if !c.star {
+        let mut want: Vec<String> = vec!["s".into()]; for k in &c.projv { want.push(OPV[*k].to_string()); } for (i, k) in c.keys.iter().enumerate() { if k.form != 0 { want.push(format!("k{i}")); } }
+        if svars != want { failure = Some(format!("(i) the result of {sq} has the columns {svars:?} instead of {want:?}")); }
+    }
+    // the projected operands of every ordered solution are those of that solution (a solution is moved, never altered)
+    if failure.is_none() {
+        let shown: Vec<usize> = if c.star { (0..c.nops).collect() } else { c.projv.clone() };
+        'rows: for (ri, r) in srows.iter().enumerate() { for k in &shown {
+            let Some(ci) = col(OPV[*k]) else { failure = Some(format!("(i) the result of {sq} has no column ?{} (columns {svars:?})", OPV[*k])); break 'rows };
+            let (seen, want) = (r[ci].as_ref().map(|x| &x.0), c.ops[out[ri]][*k].as_ref());
+            let same = match (seen, want) { (None, None) => true, (Some(a), Some(b)) => same_term(a, b), _ => false };
+            if !same { failure = Some(format!("(i) the ordered result binds ?{} of s{} to {} but that solution has {} (the ordered result is not a permutation of the unordered solutions)", OPV[*k], out[ri], seen.map_or("UNBOUND".into(), show), want.map_or("UNBOUND".into(), show))); break 'rows }
+        } }
+        if !shown.is_empty() { bumps.push(format!("q:projected-operands:{}", if c.star { "star".to_string() } else { shown.len().to_string() })); }
+    }
     { let (mut a, mut b) = (order.clone(), out.clone()); a.sort(); b.sort(); if a != b { failure = Some(format!("(i) the ordered result {out:?} is not a permutation of the unordered solutions {order:?}")); } }
     if failure.is_none() {
         let keys: Vec<&Vec<KeyObs>> = out.iter().map(|s| obs[*s].as_ref().unwrap()).collect();
@@ -756,8 +794,9 @@ fn run_qcase(c: &QCase, verbose: bool) -> QOut {
     // the variables of form 1 / 2 keys, as returned by the sorted query, are the observed keys
     if failure.is_none() {
         let cols: Vec<usize> = (0..nk).filter(|i| c.keys[*i].form != 0).collect();
-        for (ri, r) in srows.iter().enumerate() { for (ci, ki) in cols.iter().enumerate() {
-            let seen = r.get(1 + ci).cloned().flatten(); let want = &obs[out[ri]].as_ref().unwrap()[*ki];
+        for (ri, r) in srows.iter().enumerate() { for ki in cols.iter() {
+            let Some(ci) = col(&format!("k{ki}")) else { failure = Some(format!("(i) the result of {sq} has no column ?k{ki} (columns {svars:?})")); break };
+            let seen = r.get(ci).cloned().flatten(); let want = &obs[out[ri]].as_ref().unwrap()[*ki];
             let same = match (&seen, &want.term) { (None, None) => true, (Some((t, d)), Some(w)) => same_term(t, w) && *d == want.dbg, _ => false };
             if !same { failure = Some(format!("the sorted query binds ?k{ki} of s{} to {:?} but the unsorted query bound it to {}", out[ri], seen.map(|(t, d)| format!("{} [{d}]", show(&t))), want.show())); }
         } }
@@ -780,8 +819,9 @@ fn run_qcase(c: &QCase, verbose: bool) -> QOut {
     // ---- LIMIT / OFFSET above ORDER BY: exactly the window of the full result (sorting is reproducible)
     if let Some((start, len)) = c.slice {
         let wq = c.sorted_query(true, false);
-        let wrows = match c.exec(&wq) { Ok(r) => r, Err(e) => return fail(e, bumps) };
-        let mut w: Vec<usize> = vec![]; for r in &wrows { match sid(&r[0]) { Ok(s) if s < c.n() => w.push(s), _ => return fail(format!("unexpected solution in the result of {wq}"), bumps) } }
+        let (wvars, wrows) = match c.exec_vars(&wq) { Ok(r) => r, Err(e) => return fail(e, bumps) };
+        let Some(wcol) = wvars.iter().position(|v| v == "s") else { return fail(format!("(i) the result of {wq} has no column ?s (columns {wvars:?})"), bumps) };
+        let mut w: Vec<usize> = vec![]; for r in &wrows { match r.get(wcol).ok_or("short row".to_string()).and_then(sid) { Ok(s) if s < c.n() => w.push(s), _ => return fail(format!("unexpected solution in the result of {wq}"), bumps) } }
         let want: Vec<usize> = out.iter().skip(start).take(len.unwrap_or(usize::MAX)).copied().collect();
         if failure.is_none() && w != want { failure = Some(format!("(vii) LIMIT/OFFSET: {wq} returns the solutions {w:?} but the window of the complete ordered result {out:?} is {want:?}")); }
         parts.push(format!("window_ok {} rows {} {start} {} {}", coq_list(descs.iter().map(|d| coq_bool(*d).to_string())), coq_list(out_pos.iter().map(|x| x.to_string())), len.map_or("None".to_string(), |l| format!("(Some {l})")), coq_list(w.iter().filter_map(|s| pos_of(*s)).map(|x| x.to_string()))));
@@ -859,7 +899,7 @@ impl Gen<'_> {
     fn forms(&self, r: &mut Rng, keys: &mut [KeySpec]) { for k in keys.iter_mut() { k.form = match r.below(5) { 0 | 1 => 0, 2 | 3 => 1, _ => 2 }; k.desc = r.chance(2, 5); } }
     fn case(&self, r: &mut Rng, sub: usize) -> QCase {
         let key = |e: String| KeySpec { expr: e, desc: false, form: 0 };
-        let mut c = QCase { ops: vec![], nops: 2, keys: vec![], graph: false, graph_const: false, filter: None, flip: r.chance(1, 2), store: r.below(3) as u8, entry: r.below(3) as u8, slice: None, distinct: false, arith: None, label: String::new() };
+        let mut c = QCase { ops: vec![], nops: 2, keys: vec![], graph: false, graph_const: false, filter: None, flip: r.chance(1, 2), store: r.below(3) as u8, entry: r.below(3) as u8, slice: None, distinct: false, arith: None, label: String::new(), projv: vec![], star: false };
         let n = if r.chance(1, 12) { r.range(12, 45) } else { r.range(2, 8) };
         match sub {
             // ---- equal values written differently on the earlier key(s), a later key must break the tie
@@ -929,6 +969,87 @@ impl Gen<'_> {
                 for _ in 0..r.range(1, 3) { c.keys.push(key(self.any_expr(r, c.nops, c.graph))); }
                 self.forms(r, &mut c.keys);
             }
+            // ---- criteria over variables that the SELECT clause does not (or only partly) project, sensitive to WHETHER the last
+            //      operand is bound (it is unbound in about half of the solutions): BOUND, IF / COALESCE / EXISTS / functions over it
+            5 => {
+                c.label = "unprojected".into();
+                c.nops = r.range(2, 3); c.graph = r.chance(1, 8);
+                let n = n.max(3);
+                let last = format!("?{}", OPV[c.nops - 1]);
+                let few: Vec<ST> = (0..3).map(|_| if r.chance(1, 2) { self.pick_class(r, &["num", "str", "date", "bool"]) } else { self.any(r) }).collect();
+                for i in 0..n {
+                    let mut row: Vec<Option<ST>> = (0..c.nops).map(|_| Some(match r.below(4) { 0 | 1 => r.pick(&few).clone(), 2 => self.pick_class(r, &["num", "str", "date", "bool"]), _ => self.any(r) })).collect();
+                    if i == 0 || (i != 1 && r.chance(1, 2)) { row[c.nops - 1] = None; }
+                    c.ops.push(row);
+                }
+                let nb = c.nops - 1;
+                let v = |r: &mut Rng| format!("?{}", OPV[r.below(nb)]);
+                let k0 = match r.below(18) {
+                    0 | 1 => format!("BOUND({last})"), 2 => format!("(! BOUND({last}))"), 3 => format!("IF(BOUND({last}), 1, 0)"), 4 => format!("IF(BOUND({last}), {}, {})", v(r), v(r)),
+                    5 => format!("COALESCE({last}, {})", r.ps(&["0", "\"\"", "<x:none>", "true"])), 6 => format!("COALESCE({last}, {})", v(r)), 7 => last.clone(), 8 => format!("STR({last})"),
+                    9 => format!("isLiteral({last})"), 10 => format!("sameTerm({last}, {last})"), 11 => format!("(BOUND({last}) && BOUND({}))", v(r)), 12 => format!("(BOUND({last}) || ({} < {}))", v(r), v(r)),
+                    13 => format!("COALESCE(IF(BOUND({last}), ?never, {}), {last})", v(r)), 14 => format!("EXISTS {{ ?s <x:o{}> ?zz9 }}", OPV[c.nops - 1]), 15 => format!("(! (! BOUND({last})))"),
+                    16 => format!("IF(BOUND({last}), STR({last}), {})", v(r)), _ => format!("(BOUND({last}) IN (true))"),
+                };
+                c.keys.push(key(k0));
+                for _ in 0..r.below(3) { c.keys.push(key(if r.chance(1, 2) { v(r) } else { self.any_expr(r, c.nops, c.graph) })); }
+                if r.chance(1, 4) { let at = r.below(c.keys.len()); c.keys.swap(0, at); }
+                for k in c.keys.iter_mut() { k.form = match r.below(5) { 0..=2 => 0, 3 => 1, _ => 2 }; k.desc = r.chance(2, 5); }
+            }
+            // ---- values that '<' orders although they are as close as their value space allows, shuffled, with a second key that
+            //      orders the solutions the other way round (any two of them wrongly tied on the first key are then output in the wrong order)
+            6 => {
+                c.label = "near-ties".into();
+                c.nops = 2;
+                let m = n.clamp(3, 9);
+                let mut cluster: Vec<ST> = vec![]; // strictly increasing for '<'
+                match r.below(8) {
+                    // dateTimes of one second or so: steps from one nanosecond to one second, one instant per member, written in various time zones
+                    0..=2 => {
+                        let zoned = r.chance(2, 3);
+                        let (mm, ss) = (r.below(29) as i64, r.below(60) as i64);
+                        let (day, month) = (1 + r.below(28), 1 + r.below(12));
+                        let year = *r.pick(&[2024i64, 1969, 1970, 1, 9999, 1582]);
+                        let mut nanos: i64 = if r.chance(1, 2) { r.below(1000) as i64 * 1_000_000 } else { r.below(1_000_000_000) as i64 };
+                        let steps: Vec<i64> = match r.below(3) { 0 => vec![1, 2, 7, 10, 99, 100, 1000], 1 => vec![1000, 10_000, 100_000, 250_000, 999_999, 1_000_000, 1_000_001], _ => vec![1, 1000, 400_000, 600_000, 1_000_000, 20_000_000, 1_000_000_000] };
+                        for _ in 0..m {
+                            let (sec_of_day, ns) = (43200 + mm * 60 + ss + nanos / 1_000_000_000, nanos % 1_000_000_000);
+                            let off: Option<i64> = if zoned { Some(*r.pick(&[0i64, 0, 7200, -18000, 19800, -12600, 41400, -41400, 3600])) } else { None };
+                            let loc = sec_of_day + off.unwrap_or(0);
+                            let mut frac = format!("{ns:09}"); while frac.ends_with('0') { frac.pop(); }
+                            if frac.len() < 9 && r.chance(1, 3) { for _ in 0..r.range(1, 9 - frac.len()) { frac.push('0'); } }
+                            let tz = match off { None => String::new(), Some(0) if r.chance(1, 2) => "Z".into(), Some(o) => format!("{}{:02}:{:02}", if o < 0 { '-' } else { '+' }, o.abs() / 3600, o.abs() % 3600 / 60) };
+                            cluster.push(x(&format!("{year:04}-{month:02}-{day:02}T{:02}:{:02}:{:02}{}{frac}{tz}", loc / 3600, loc % 3600 / 60, loc % 60, if frac.is_empty() { "" } else { "." }), "dateTime"));
+                            nanos += *r.pick(&steps);
+                        }
+                    }
+                    // neighbouring doubles / floats
+                    3 => { let mut f: f64 = *r.pick(&[1.0f64, 0.1, -2.5, 1e300, 5e-324, 123456.789, 9007199254740992.0, -1e-7, 4294967296.0]); if r.chance(1, 3) { f = conv_random_f64(r); }
+                           for _ in 0..m { cluster.push(x(&format!("{f:e}"), "double")); for _ in 0..r.range(1, 2) { f = f.next_up(); } } }
+                    4 => { let mut f: f32 = *r.pick(&[1.0f32, 0.1, -2.5, 1e30, 1e-45, 16777216.0, -1e-7]); if r.chance(1, 3) { f = conv_random_f32(r); }
+                           for _ in 0..m { cluster.push(x(&format!("{f:e}"), "float")); for _ in 0..r.range(1, 2) { f = f.next_up(); } } }
+                    // decimals that differ in their last digits only (beyond the precision of a double)
+                    5 => { let ni = r.range(1, 12); let nf = r.range(17, 30); let d = conv_random_digits(r, ni + nf); let neg = r.chance(1, 3);
+                           let mut k = r.below(100); let mut v = vec![];
+                           for _ in 0..m { v.push(x(&format!("{}{}.{}{k:04}", if neg { "-" } else { "" }, &d[..ni], &d[ni..]), "decimal")); k += *r.pick(&[1usize, 1, 2, 10, 100]); }
+                           if neg { v.reverse(); } cluster = v; }
+                    // consecutive integers beyond (or across the ends of) the isize range
+                    6 => { let mut h = *r.pick(&HUGE) - r.below(4) as i128; for _ in 0..m { cluster.push(int_lit(h, r)); h += r.range(1, 2) as i128; } }
+                    // strings with a common prefix (code point order: U+FFFD < U+10000, unlike UTF-16 order)
+                    _ => { let pre: String = (0..r.below(10)).map(|_| *r.pick(&['a', 'B', '0', ' ', '\u{e9}', '\u{10000}', '-'])).collect();
+                           let sfx = ["", "0", "00", "A", "a", "a0", "\u{e9}", "\u{fffd}", "\u{10000}", "\u{10000}0"];
+                           let mut at = 0; for _ in 0..m { if at >= sfx.len() { break; } cluster.push(x(&format!("{pre}{}", sfx[at]), "string")); at += r.range(1, 2); } }
+                }
+                let m = cluster.len();
+                let mut perm: Vec<usize> = (0..m).collect(); for i in (1..m).rev() { perm.swap(i, r.below(i + 1)); }
+                let tb: Vec<ST> = match r.below(3) { 0 => (0..m).map(|i| x(&(m - i).to_string(), "integer")).collect(), 1 => (0..m).map(|i| x(&format!("{}", (b'a' + (m - i) as u8) as char), "string")).collect(),
+                    _ => (0..m).map(|i| x(&format!("2024-01-{:02}T00:00:00Z", 1 + m - i), "dateTime")).collect() };
+                for i in 0..m { c.ops.push(vec![Some(cluster[perm[i]].clone()), Some(tb[perm[i]].clone())]); }
+                let ka = match r.below(8) { 0 => "COALESCE(?a, 0)".to_string(), 1 => "IF(BOUND(?a), ?a, ?b)".to_string(), _ => "?a".to_string() };
+                c.keys.push(key(ka)); if r.chance(4, 5) { c.keys.push(key("?b".into())); }
+                self.forms(r, &mut c.keys);
+                let d = c.keys[0].desc; for k in c.keys.iter_mut() { k.desc = d; }
+            }
             // ---- plain keys of every kind, few distinct values on the earlier keys, unbound operands, named graphs
             _ => {
                 c.label = "plain".into();
@@ -946,6 +1067,11 @@ impl Gen<'_> {
         if r.chance(1, 4) { let start = r.below(c.ops.len() + 2); let len = if r.chance(1, 4) { None } else { Some(r.below(c.ops.len() + 1)) }; c.slice = Some((start, len)); }
         if r.chance(1, 6) { c.distinct = true; for k in c.keys.iter_mut() { if k.form == 0 { k.form = 1 + (k.expr.len() % 2) as u8; } } }
         c
+    }
+    /// a SELECT clause that projects some of the operands, or SELECT * (directed stream only)
+    fn projection(&self, r: &mut Rng, c: &mut QCase) {
+        for k in 0..c.nops { if r.chance(1, 3) { c.projv.push(k); } }
+        if r.chance(1, 8) { c.star = true; c.projv.clear(); for k in c.keys.iter_mut() { if k.form == 2 { k.form = 1; } } }
     }
 }
 
@@ -1195,9 +1321,25 @@ fn c_gen_num(r: &mut Rng, d: usize) -> CE {
         _ => CE::If(Box::new(c_gen_bool(r, 0)), var("v"), Box::new(int(r))),
     }
 }
-fn c_gen_case(r: &mut Rng) -> CCase {
+/// a key whose value depends on WHETHER a variable of the pattern is bound (?v and ?zz are bound by one UNION branch each, ?h by the link)
+fn c_gen_boundness(r: &mut Rng) -> CE {
+    let x = r.ps(&["v", "zz", "v", "zz", "h", "g", "u"]).to_string();
+    let var = |n: &str| Box::new(CE::Var(n.to_string()));
+    let int = |r: &mut Rng| Box::new(CE::Const(x_int(r.below(9) as i64 - 2)));
+    let bound = |x: &str| Box::new(CE::Bound(x.to_string()));
+    match r.below(10) {
+        0 | 1 => CE::Bound(x), 2 => CE::Not(bound(&x)), 3 => CE::If(bound(&x), int(r), int(r)), 4 => CE::If(bound(&x), var(r.ps(&["v", "s", "zz"])), var("s")),
+        5 => CE::Coalesce(var(&x), int(r)), 6 => CE::If(Box::new(CE::Not(bound(&x))), var("s"), int(r)), 7 => CE::Coalesce(Box::new(CE::If(bound(&x), var("u"), int(r))), var("v")),
+        8 => CE::Not(Box::new(CE::Not(bound(&x)))), _ => CE::If(bound(&x), Box::new(c_gen_bool(r, 0)), Box::new(CE::Bound("s".into()))),
+    }
+}
+fn x_int(i: i64) -> ST { x(&i.to_string(), "integer") }
+fn c_gen_case(r: &mut Rng) -> CCase { c_gen_case_x(r, false) }
+/// `directed`: the UNION with unbound values three times in four, SELECT clauses that project only part of the variables at every level
+/// (the outermost one included), one SELECT only half of the time, and a first key that depends on whether a variable is bound
+fn c_gen_case_x(r: &mut Rng, directed: bool) -> CCase {
     // ---- the dataset: a default graph and up to three named graphs that tell different stories about the same subjects
-    let n = r.range(3, 7); let unb = r.chance(1, 4); let link = r.chance(1, 5);
+    let n = r.range(3, 7); let unb = if directed { r.chance(3, 4) } else { r.chance(1, 4) }; let link = r.chance(1, 5);
     let val = |r: &mut Rng| -> ST { let i = r.below(9) as i64 - 2; match r.below(16) { 0 => x(&format!("{i}.0"), "decimal"), 1 if i >= 0 => x(&format!("0{i}"), "integer"), 2 => iri(&format!("x:i{}", r.below(4))), _ => x(&i.to_string(), "integer") } };
     let mut quads: Vec<CQuad> = vec![];
     let ng = r.range(1, 3);
@@ -1215,7 +1357,7 @@ fn c_gen_case(r: &mut Rng) -> CCase {
     // (FROM <g> would be one more way to choose the active graph of the outermost SELECT, but sophia_sparql answers
     // NotImplemented("FROM NAMED") to every query that has a FROM clause)
     let from: Option<usize> = None;
-    let depth = match r.below(10) { 0 => 1, 1..=6 => 2, _ => 3 };
+    let depth = if directed { match r.below(10) { 0..=4 => 1, 5..=8 => 2, _ => 3 } } else { match r.below(10) { 0 => 1, 1..=6 => 2, _ => 3 } };
     let gvars = ["g", "g2", "g3"]; let mut next_gvar = 0;
     let mut wrap = |r: &mut Rng, p: CPat, force: bool| -> (CPat, String) {
         match if from.is_some() { 8 } else { r.below(if force { 6 } else { 9 }) } {
@@ -1235,13 +1377,14 @@ fn c_gen_case(r: &mut Rng) -> CCase {
         let innermost = level == depth - 1;
         let avail = cpat_vars(&pat);
         let mut proj: Vec<String> = vec!["s".into()];
-        for v in &avail { if v != "s" && (level == 0 || r.chance(3, 4)) { proj.push(v.clone()); } }
+        for v in &avail { if v != "s" && (if directed { r.chance(1, 2) } else { level == 0 || r.chance(3, 4) }) { proj.push(v.clone()); } }
         let ordered = innermost || r.chance(1, 2);
         let mut s = CSel { proj, selx: vec![], pat: pat.clone(), order: vec![], slice: None };
         if ordered {
             for i in 0..r.range(1, 3) {
                 // the first key is, one time in two, a test on the active graph (possibly wrapped): the keys that follow break its ties
-                let e = if i == 0 && r.chance(1, 2) { let t = CE::Exists(r.chance(1, 3), CGs::Active, c_gen_tp(r, &CGs::Active)); match r.below(6) { 0 => CE::If(Box::new(t), Box::new(CE::Var("v".into())), Box::new(CE::Var("u".into()))), 1 => CE::Coalesce(Box::new(CE::If(Box::new(t), Box::new(CE::Var("v".into())), Box::new(CE::Var("u".into())))), Box::new(CE::Const(x("1", "integer")))), _ => t } }
+                let e = if directed && i == 0 && r.chance(2, 3) { c_gen_boundness(r) }
+                    else if i == 0 && r.chance(1, 2) { let t = CE::Exists(r.chance(1, 3), CGs::Active, c_gen_tp(r, &CGs::Active)); match r.below(6) { 0 => CE::If(Box::new(t), Box::new(CE::Var("v".into())), Box::new(CE::Var("u".into()))), 1 => CE::Coalesce(Box::new(CE::If(Box::new(t), Box::new(CE::Var("v".into())), Box::new(CE::Var("u".into())))), Box::new(CE::Const(x("1", "integer")))), _ => t } }
                     else if r.chance(1, 2) { c_gen_bool(r, 1) } else { c_gen_num(r, 1) };
                 let mut e = e; if from.is_some() { ce_no_graph(&mut e); }
                 let desc = r.chance(2, 5);
@@ -1270,6 +1413,7 @@ fn c_gen_case(r: &mut Rng) -> CCase {
         }
     }
     if from.is_some() { shape.push_str("+FROM"); }
+    if directed { shape.push_str("+part-proj"); }
     CCase { quads, top, from, store: r.below(3) as u8, entry: r.below(3) as u8, shape }
 }
 fn exec_store(quads: &[CQuad], store: u8, entry: u8, q: &str) -> Result<QRows, String> {
@@ -1566,6 +1710,10 @@ fn run_conv_case(c: &ConvCase) -> ConvOut {
     o
 }
 
+/// ids of the directed stream (one case for every six random ones): k % 6 = 0, 1: criteria over unprojected variables that are sensitive to
+/// boundness (q:unprojected); 2, 3: values as close as '<' can tell apart (q:near-ties); 4: context case with partial projections and boundness
+/// keys; 5: one of the five random kinds of end-to-end case; all the end-to-end ones with a SELECT clause that projects some operands or *
+const DIRECTED_BASE: usize = 400_000_000;
 const TRIPLE_BASE: usize = 1_000_000_000;
 const PAIR_BASE: usize = 3_000_000_000;
 fn coq_key(k: Key) -> String { match k { Some(i) => format!("(Some p{i})"), None => "None".into() } }
@@ -1583,7 +1731,8 @@ oracle on them: permutation, kind ranks, '<' from the lexical forms, (v) exactly
 context cases (kinds c:*): 3..7 subjects described differently by a default graph and 1..3 named graphs (values, flags, links to graph names, unbound values), a chain of 1..3 SELECTs nested directly or through GRAPH <g> / GRAPH ?g (shape string: B base pattern, g/v a GRAPH around it, G/V a GRAPH around a sub-select, So ordered, Sw ordered with LIMIT/OFFSET, Su unordered), 1..3 keys per ORDER BY among EXISTS / NOT EXISTS over a triple pattern of the active graph, of GRAPH <g>, of GRAPH ?x (bound or not), BOUND, '!', IF, COALESCE, variables (graph variables included) and constants, directly or through a SELECT expression; every ORDER BY is made free of ties (final keys ?s and the graph variables if needed); \
 oracle on them: (ix) the result equals the SPARQL 1.1 section 18 evaluation in which each key is evaluated in the active graph of its SELECT (sequence if the outermost SELECT is ordered, multiset otherwise); non-trivial = some ORDER BY of the case sorts at least two solutions; \
 conversion cases (kinds v:*, one for every five other cases; the first two are the inputs on which the library routines used before the repairs went wrong): up to 4 xsd:integer / xsd:decimal literals (isize and beyond, 3+ limbs, up to 330 digits, decimals with up to 1100 fraction digits: exactly half-way between two neighbouring doubles / floats and one decimal unit 1..60 places deeper above or below, half-way points of f32 approached within half an ulp of f64, the overflow thresholds MAX + ulp/2, (k + 1/2) ulps of the least exponent, long integer parts with a short fraction, numbers of the formats written as decimals) or values computed from them (quotients, products), promoted by the engine through ?v * 1e0 and ?v * 1 (as an xsd:float); \
-oracle on them: (x) the promotion never crosses a float (no f64 / f32 number lies between the exact value and its image, weakly on the side of the exact value) and `isize as` float is correctly rounded; non-trivial = an operand beyond isize or an image that is not the correctly rounded one".into();
+oracle on them: (x) the promotion never crosses a float (no f64 / f32 number lies between the exact value and its image, weakly on the side of the exact value) and `isize as` float is correctly rounded; non-trivial = an operand beyond isize or an image that is not the correctly rounded one; \
+directed stream (one case for every six random ones, ids from 400000000, same oracles and Coq checkers): q:unprojected = criteria that depend on whether the last operand (unbound in about half of the solutions, not or only sometimes projected) is bound: BOUND, !, IF, COALESCE, EXISTS, IN, STR, isLiteral, sameTerm over it, mixed with other keys; q:near-ties = 3..9 values that '<' orders but that are as close as their value space allows (dateTimes 1 ns .. 1 s apart in years 1 .. 9999 written in several time zones with up to 9 fraction digits, neighbouring doubles / floats, decimals differing after 17..30 fraction digits, consecutive integers across the ends of the isize range, strings with a common prefix incl. U+FFFD / U+10000), shuffled, with a second key in the opposite order; context cases with SELECT clauses that keep part of the variables at every level and a first key that depends on the boundness of a variable (shape suffix +part-proj); every end-to-end case of the stream projects ?s, some operands or * and the projected operands of each ordered solution must be those of that solution".into();
     let mut terms = pool_terms();
     let nsweep = terms.len();
     terms.extend(extra_terms());
@@ -1671,7 +1820,7 @@ oracle on them: (x) the promotion never crosses a float (no f64 / f32 number lie
     // ---------- random cases
     let base = Rng::new(a.seed);
     let mut cases = vec![]; let mut seen = std::collections::HashSet::new();
-    let range: Vec<usize> = match a.only { Some(i) if i < CONV_BASE => vec![i], Some(_) => vec![], None => (0..a.n).collect() };
+    let range: Vec<usize> = match a.only { Some(i) if i < CONV_BASE => vec![i], Some(_) => vec![], None => (0..a.n).chain(DIRECTED_BASE..DIRECTED_BASE + a.n / 6).collect() };
     // indices by class, to draw related terms together
     let mut classes: Vec<(String, Vec<usize>)> = vec![];
     for (i, t) in class_tag.iter().enumerate() { let fam = t.split(':').next().unwrap().to_string(); match classes.iter_mut().find(|c| c.0 == fam) { Some(c) => c.1.push(i), None => classes.push((fam, vec![i])) } }
@@ -1695,10 +1844,12 @@ oracle on them: (x) the promotion never crosses a float (no f64 / f32 number lie
         let focus: Option<Vec<usize>> = if r.chance(1, 2) { let mut f = r.pick(&classes).1.clone(); if r.chance(1, 2) { f.extend(r.pick(&classes).1.iter().copied()); } Some(f) } else { None };
         // kinds 0..19: keys that are pool terms (pairs, rows); kinds 20..: end-to-end queries with computed keys
         let kind = r.below(48);
+        let directed: Option<usize> = if idx >= DIRECTED_BASE { Some(idx - DIRECTED_BASE) } else { None };
+        let kind = match directed { Some(k) => if k % 6 == 4 { 40 } else { 20 }, None => kind };
         let (text, body, desc_txt, failure, keys_flat): (String, Option<String>, String, Option<String>, Vec<Key>);
         if kind >= 40 {
             // ORDER BY in its evaluation context
-            let c = c_gen_case(&mut r);
+            let c = if directed.is_some() { c_gen_case_x(&mut r, true) } else { c_gen_case(&mut r) };
             if a.only.is_some() { println!("CASE {idx}: {}", c_describe(&c)); }
             let o = run_ccase(&c, a.only.is_some());
             for b in &o.bumps { sum.bump(b); }
@@ -1712,9 +1863,10 @@ oracle on them: (x) the promotion never crosses a float (no f64 / f32 number lie
             continue;
         }
         if kind >= 20 {
-            let sub = match kind { 20..=24 => 0, 25..=28 => 1, 29..=31 => 2, 32..=35 => 3, _ => 4 };
+            let sub = match directed { Some(k) => match k % 6 { 0 | 1 => 5, 2 | 3 => 6, _ => (k / 6) % 5 }, None => match kind { 20..=24 => 0, 25..=28 => 1, 29..=31 => 2, 32..=35 => 3, _ => 4 } };
             let g = Gen { pool: &pool, fams: &fams, classes: &classes, np: np_all };
-            let c = g.case(&mut r, sub);
+            let mut c = g.case(&mut r, sub);
+            if directed.is_some() { g.projection(&mut r, &mut c); }
             if a.only.is_some() { println!("CASE {idx}: {}", c.describe()); }
             let o = run_qcase(&c, a.only.is_some());
             for b in &o.bumps { sum.bump(b); }
